@@ -16,32 +16,6 @@ run; the `SI_*` / `CLD_*` / `SIGCHLD` numbers come from the system headers (`Gen
 namespace SigHook.Origin
 open SigHook.Gen
 
-/-! ## The kernel's contract (environment; validated by real deliveries in the harness) -/
-
-/-- which `(signo, si_code)` carry valid `si_pid` / `si_uid` on Linux -/
-def kernelFills (signo code : Int) : Bool :=
-  code == Gen.SI_USER || code == Gen.SI_TKILL || code == Gen.SI_QUEUE || code == Gen.SI_MESGQ ||
-  (signo == Gen.SIGCHLD &&
-    (code == Gen.CLD_EXITED || code == Gen.CLD_KILLED || code == Gen.CLD_DUMPED ||
-     code == Gen.CLD_TRAPPED || code == Gen.CLD_STOPPED || code == Gen.CLD_CONTINUED))
-
-/-- the intended classification -/
-def specCause (signo code : Int) : Cause :=
-  if code = Gen.SI_KERNEL then .kernel
-  else if code = Gen.SI_USER then .sentUser
-  else if code = Gen.SI_TKILL then .sentTKill
-  else if code = Gen.SI_QUEUE then .sentQueue
-  else if code = Gen.SI_MESGQ then .sentMesgQ
-  else if signo = Gen.SIGCHLD then
-    if code = Gen.CLD_EXITED then .chldExited
-    else if code = Gen.CLD_KILLED then .chldKilled
-    else if code = Gen.CLD_DUMPED then .chldDumped
-    else if code = Gen.CLD_TRAPPED then .chldTrapped
-    else if code = Gen.CLD_STOPPED then .chldStopped
-    else if code = Gen.CLD_CONTINUED then .chldContinued
-    else .unknown
-  else .unknown
-
 /-- the numeric cause code as a chain of tests (what the generated table computes) -/
 theorem causeCode_cases (signo code : Int) :
     causeCode Gen.causeRows signo code =
@@ -170,6 +144,19 @@ theorem C17_tables_in_sync :
     (Gen.icause.map (·.2)).Nodup ∧
     (∀ d ∈ Gen.icause, (lookupNat d.2 Gen.hasProcessTable).isSome ∧
                         (lookupNat d.2 Gen.toCauseTable).isSome) := by decide
+
+/-- **C17.extract_meets_spec** — the three facts together: for every kernel record, the model
+of `Origin::extract` returns exactly what the property demands (`specOrigin`, the monitor the
+harness applies to the real code). -/
+theorem C17_extract_meets_spec (info : SigInfo) : extract info = specOrigin info := by
+  have h1 := C17_cause_correct info
+  have h2 := C17_process_iff_kernel_fills info
+  cases he : extract info with
+  | mk sg pr ca =>
+    rw [he] at h1 h2
+    simp only [specOrigin]
+    simp only at h1 h2
+    rw [h1, h2.1, h2.2]
 
 /-! ## non-vacuity -/
 example : extract ⟨10, 0, 4242, 1000⟩ = ⟨10, some (4242, 1000), .sentUser⟩ := by decide
